@@ -63,9 +63,24 @@ def run(ctx, F):
     else:
         ctx.fail("F8-ordermap-inventory", "OrderMap storage is private", "the vector inside OrderMap is visible outside the module: keys could be manipulated without `==`")
     # ---------------------------------------------------------------- (ii) duplicate keys in literals
-    ev = prog.one("<sass::value::Value>::do_evaluate")
+    ev0 = prog.one("<sass::value::Value>::do_evaluate")
+    ev = ev0
     ins = [(bi, t) for bi, t in ev.calls() if (mir.callee_name(t) or "").endswith("OrderMap<K, V>>::insert")]
-    if len(ins) != 1:
+    if not ins:
+        # the map arm may have been moved into a helper of the same impl: follow one level
+        for bi, t in ev0.calls():
+            d = mir.callee_name(t)
+            if d in prog.bodies and d.startswith("<sass::value::Value>::") and d != ev0.def_:
+                hb = prog.bodies[d]
+                hins = [(b2, t2) for b2, t2 in hb.calls() if (mir.callee_name(t2) or "").endswith("OrderMap<K, V>>::insert")]
+                if hins:
+                    ev, ins = hb, hins
+    collected = [(bi, t) for bi, t in ev0.calls() if "OrderMap<" in " ".join(t["callee"].get("gargs", []) or []) + (mir.callee_name(t) or "")
+                 and ((mir.callee_orig(t) or "").endswith("Iterator::collect") or (mir.callee_orig(t) or "").endswith("FromIterator::from_iter") or (mir.callee_orig(t) or "").endswith("Extend::extend"))]
+    if not ins and collected:
+        ctx.fail("F2-duplicate-key", "map literal: insert() returning Some is an error", "the map literal is built by collecting its pairs into an OrderMap (from_iter / collect does not compare keys): the pairwise `==` test of OrderMap::insert "
+                 "is gone, so whether two equal keys are noticed depends on an ad-hoc test before the collection", where=ev0.where(collected[0][0]))
+    elif len(ins) != 1:
         ctx.anchor_lost("do_evaluate map literal insert", f"expected one OrderMap::insert in sass::Value::do_evaluate, found {len(ins)}")
     else:
         bi, t = ins[0]
